@@ -540,11 +540,15 @@ def r2_declared_sizes(ctx):
                         nitems = sum(c for c, _k in it[1]) if it is not None and all(c != "%d" for c, _k in it[1]) else None
                         if nitems is None:
                             continue
-                        for u in w.events:
-                            if u[0] == "decidx" and u[1].equals(decv) and not (-nitems <= u[2] < nitems):
-                                ok, bad = False, {"format": T.strval(vals[0], tbs[what][bits]).replace(T.ENDIAN, ""), "items": nitems, "index used": u[2]}
-                            if u[0] == "decunpack" and u[1].equals(decv) and u[2] != nitems:
-                                ok, bad = False, {"format": T.strval(vals[0], tbs[what][bits]).replace(T.ENDIAN, ""), "items": nitems, "unpacked into": u[2]}
+                        # (the same decode is reached on every walk of the family - the loader with each of its readers: all its uses count)
+                        for _what2, n2, w2 in walks:
+                            if n2.split("/")[0] != n.split("/")[0]:
+                                continue
+                            for u in w2.events:
+                                if u[0] == "decidx" and u[1].equals(decv) and not (-nitems <= u[2] < nitems):
+                                    ok, bad = False, {"format": T.strval(vals[0], tbs[what][bits]).replace(T.ENDIAN, ""), "items": nitems, "index used": u[2]}
+                                if u[0] == "decunpack" and u[1].equals(decv) and u[2] != nitems:
+                                    ok, bad = False, {"format": T.strval(vals[0], tbs[what][bits]).replace(T.ENDIAN, ""), "items": nitems, "unpacked into": u[2]}
             nsites += 1
             ctx.check(ok, f"{n.split('/')[-1]}: the bytes read for a struct decode equal the size of its format, with 32- and 64-bit keys, and the "
                           "decoded items are used within their number", e[3], bad)
@@ -1771,6 +1775,11 @@ def r7_announced_format(ctx):
     ctx.check(ok, "_loadop4_ascii: the used part of a data line is perline * field width characters", fn,
               None if ok else {"lines are cut at": [repr(c)[:200] for c in cuts]})
     for label, v in (("values per line", pl), ("field width", nl)):
+        # "any announced field width": the value the reader works with is read from the matrix header line (a constant would ignore it)
+        ok = any(d[0] == "fn" and d[1] == "ln" for d in C.walk_atoms(v))
+        ctx.check(ok, f"_loadop4_ascii: the {label} the readers work with depends on the format the matrix header announces", fn,
+                  None if ok else {label: repr(v)[:200]})
+    for label, v in (("values per line", pl), ("field width", nl)):
         bad = []
         for meth, chars in _strip_calls(v):
             if chars is None:
@@ -1967,20 +1976,22 @@ def _r6(ctx):
 RULES = [
     ("C11-R1", r1_cutover_pairs, 50),
     ("C11-R2", r2_declared_sizes, 75),
-    ("C11-R3", r3_sibling_decoders, 20),
+    ("C11-R3", r3_sibling_decoders, 22),
     ("C11-R4", r4_read_equals_skip, 34),
     ("C11-R5", r5_listing_equals_read, 17),
     ("C11-R6", _r6, 8),
-    ("C11-R7", r7_announced_format, 5),
+    ("C11-R7", r7_announced_format, 6),
     ("C11-R8", r8_name_selection, 3),
 ]
 LEVEL = "other"
-EXPLANATION = ("Static, decided on values by a consumption evaluator (file-position bookkeeping per loop body and per branch): per-variant constants are "
-               "self-consistent (struct code / numpy dtype / byte count at every decode), both decoding routes at the 3000-value cut-over read the same "
-               "type, count and bytes, sibling decoders share their header arithmetic (symbolic, over the whole 16-bit row range) and read what the header "
-               "announces, skippers consume what readers consume and stop where they stop, listings take sizes from the fields reads use, multi-part "
-               "record cursors advance by what was stored, announced ASCII formats are parsed without character-set stripping, exact names select "
-               "exactly.")
+EXPLANATION = ("Static, decided on values by a consumption evaluator (file-position bookkeeping per loop body and per branch; loops in one normal "
+               "form whether tested at the top, at the end, in the middle or in a walrus; helpers, properties, local functions and lambdas followed): "
+               "per-variant constants are self-consistent (struct code / numpy dtype / byte count at every decode), both decoding routes at the "
+               "3000-value cut-over read the same type, count and bytes, sibling decoders share their header arithmetic (symbolic, over the whole "
+               "16-bit row range) and read what the header announces, skippers consume what readers consume and stop where they stop (ASCII: one "
+               "walk of loader and skipper per truth assignment of the layout tests), listings take sizes from the fields reads use, multi-part "
+               "record cursors advance by what was stored, announced ASCII formats are honoured and parsed without character-set stripping, exact "
+               "names select exactly.")
 MANIFEST = {
     "text": "Partial claim decided statically: (R1) struct/fromfile pairs at every cut-over site of op4 and op2 decode the same kind, size and count for 32- and "
             "64-bit keys and every `form`; (R2) every struct decode reads the size of its format in both key widths; (R3) nonbigmat/bigmat header arithmetic is "
